@@ -481,3 +481,327 @@ Proof.
   split; [exact Hw|]. split; [exact Hn|]. split; [exact Hs|]. split; [exact Hb|].
   destruct (tmpl_roundtrip _ _ Hw Hn (proj1 ex_wf) Hs Hb) as (b & E1 & _ & E2). eauto.
 Qed.
+
+(* ------------------------------------------------------------------ the template the library creates *)
+
+(* every field holds at least one item, at every level: true of every Message the API builds (a field
+   disappears with its last item); only Messages parsed from contrived bytes can have empty fields *)
+Fixpoint nz_msg (m : msg) : Prop :=
+  match m with Msg _ fs => nz_fields fs end
+with nz_fields (fs : fields) : Prop :=
+  match fs with FNil => True | FCons _ _ r t => 1 <= repr_count r /\ nz_repr r /\ nz_fields t end
+with nz_repr (r : repr) : Prop :=
+  match r with RInline i => nz_item i | RArray l => nz_items l end
+with nz_item (i : item) : Prop :=
+  match i with IMsg m => nz_msg m | _ => True end
+with nz_items (l : items) : Prop :=
+  match l with INil => True | ICons i t => nz_item i /\ nz_items t end.
+
+Fixpoint rep_items (n : nat) (v : item) : items := match n with O => INil | S k => ICons v (rep_items k v) end.
+
+Lemma push_n_all (n : nat) (cur : option repr) (v : item) : push_n n cur v = push_all cur (rep_items n v).
+Proof. revert cur; induction n as [|k IH]; intro cur; cbn [push_n rep_items push_all]; [reflexivity|apply IH]. Qed.
+
+Lemma rep_items_len (n : nat) (v : item) : items_len (rep_items n v) = N.of_nat n.
+Proof. induction n as [|k IH]; cbn [rep_items items_len]; [reflexivity|]. rewrite IH. lia. Qed.
+
+Lemma repr_of_count (l : items) : repr_count (repr_of l) = items_len l.
+Proof. destruct l as [|a [|b t]]; reflexivity. Qed.
+
+Lemma wf_repr_of (ft : ftype) (l : items) : wf_items ft l -> wf_repr ft (repr_of l).
+Proof. destruct l as [|a [|b t]]; cbn [repr_of wf_repr wf_items]; tauto. Qed.
+
+Lemma ne_repr_of (l : items) : ne_items l -> ne_repr (repr_of l).
+Proof. destruct l as [|a [|b t]]; cbn [repr_of ne_repr ne_items]; tauto. Qed.
+
+Lemma wf_rep_items (ft : ftype) (n : nat) (v : item) : wf_item ft v -> wf_items ft (rep_items n v).
+Proof. intro H. induction n as [|k IH]; cbn [rep_items wf_items]; auto. Qed.
+
+Lemma ne_rep_items (n : nat) (v : item) : ne_item v -> ne_items (rep_items n v).
+Proof. intro H. induction n as [|k IH]; cbn [rep_items ne_items]; auto. Qed.
+
+Lemma push_n_repr (n : N) (v : item) : 1 <= n -> push_n (N.to_nat n) None v = Some (repr_of (rep_items (N.to_nat n) v)).
+Proof.
+  intro H. rewrite push_n_all, push_all_none; [reflexivity|].
+  destruct (N.to_nat n) eqn:E; [lia|cbn [rep_items]; discriminate].
+Qed.
+
+(* the default items CreateMessageTemplate stores are well-formed items of their types *)
+Lemma default_item_wf (ft : ftype) : ft_fixed ft = true -> ft <> TRect -> wf_item ft (IFix (zeros (N.to_nat (cpp_size ft)))).
+Proof. destruct ft; intros H1 H2; try discriminate H1; try congruence; vm_compute; auto. Qed.
+
+Lemma default_rect_wf : wf_item TRect (IFix default_rect).
+Proof. vm_compute. reflexivity. Qed.
+
+(* the per-item templates of a list of sub-Messages *)
+Fixpoint tmpl_items (l : items) : items :=
+  match l with
+  | INil => INil
+  | ICons (IMsg m) t => ICons (IMsg (tmpl_of_msg m)) (tmpl_items t)
+  | ICons _ t => tmpl_items t
+  end.
+
+Lemma shape_repr_of (lt lp : items) :
+  lt <> INil -> shape_items lt lp = true -> shape_repr TMessage (repr_of lt) lp = true.
+Proof.
+  destruct lt as [|a [|b t]]; intros Hne H; [contradiction| |exact H].
+  cbn [repr_of shape_repr]. cbn [shape_items] in H. apply andb_true_iff in H. tauto.
+Qed.
+
+Lemma shape_repr_leaf (ft : ftype) (r : repr) (lp : items) : ft <> TMessage -> shape_repr ft r lp = true.
+Proof. intro H. destruct r; destruct ft; try reflexivity; congruence. Qed.
+
+Lemma created_template_all :
+  (forall i cur, wf_item TMessage i -> nz_item i ->
+     exists m, i = IMsg m /\ tmpl_of_item i cur = Some (push false cur (IMsg (tmpl_of_msg m))) /\
+               shape_msg (tmpl_of_msg m) (strip_msg m) = true /\ wf_msg (tmpl_of_msg m) /\ ne_msg (tmpl_of_msg m)) /\
+  (forall l cur, wf_items TMessage l -> nz_items l ->
+     tmpl_of_items l cur = push_all cur (tmpl_items l) /\ items_len (tmpl_items l) = items_len l /\
+     shape_items (tmpl_items l) (strip_items l) = true /\ wf_items TMessage (tmpl_items l) /\ ne_items (tmpl_items l)) /\
+  (forall r ft, ft_flattenable ft = true -> wf_repr ft r -> nz_repr r -> 1 <= repr_count r ->
+     exists r', tmpl_of_repr ft r = Some r' /\ repr_count r' = repr_count r /\
+                shape_repr ft r' (strip_items (repr_items r)) = true /\ wf_repr ft r' /\ ne_repr r') /\
+  (forall fs, wf_fields fs -> nz_fields fs ->
+     shape_fields (tmpl_of_fields fs) (strip_fields fs) = true /\ wf_fields (tmpl_of_fields fs) /\
+     ne_fields (tmpl_of_fields fs) /\ (forall n, In n (fnames (tmpl_of_fields fs)) -> In n (fnames fs))) /\
+  (forall m, wf_msg m -> nz_msg m ->
+     shape_msg (tmpl_of_msg m) (strip_msg m) = true /\ wf_msg (tmpl_of_msg m) /\ ne_msg (tmpl_of_msg m)).
+Proof.
+  apply msg_mutind.
+  - intros bs cur H. cbn [wf_item] in H. contradiction.
+  - intros bs cur H. cbn [wf_item] in H. contradiction.
+  - intros bs cur H. cbn [wf_item] in H. contradiction.
+  - intros m IH cur Hw Hn. cbn [wf_item] in Hw. cbn [nz_item] in Hn.
+    destruct (IH Hw Hn) as (H1 & H2 & H3). exists m. cbn [tmpl_of_item]. auto.
+  - intros id cur H. cbn [wf_item] in H. contradiction.
+  - intros cur _ _. cbn [tmpl_of_items tmpl_items push_all items_len strip_items shape_items wf_items ne_items]. auto.
+  - intros i IHi t IHt cur [Hwi Hwt] [Hni Hnt].
+    destruct (IHi cur Hwi Hni) as (m & -> & E & S1 & W1 & N1).
+    destruct (IHt (Some (push false cur (IMsg (tmpl_of_msg m)))) Hwt Hnt) as (E2 & L2 & S2 & W2 & N2).
+    cbn [tmpl_of_items tmpl_of_item tmpl_items push_all items_len strip_items strip_item shape_items shape_item items_tail wf_items wf_item ne_items ne_item].
+    rewrite E2, L2, S1, S2. repeat split; try reflexivity; assumption.
+  - (* RInline *)
+    intros i IHi ft Hf Hw Hn Hc. cbn [wf_repr] in Hw. cbn [nz_repr] in Hn.
+    destruct ft; try discriminate Hf.
+    all: try (
+      (* fixed-size types *)
+      eexists; cbn [tmpl_of_repr repr_count]; change (N.to_nat 1) with 1%nat; cbn [push_n push];
+      split; [reflexivity|]; split; [reflexivity|]; split; [reflexivity|]; cbn [wf_repr ne_repr ne_item]; split;
+      [first [exact default_rect_wf | apply default_item_wf; [reflexivity|discriminate]] | exact I]).
+    + (* Message *)
+      destruct (IHi None Hw Hn) as (m & -> & E & S1 & W1 & N1).
+      exists (RInline (IMsg (tmpl_of_msg m))). cbn [tmpl_of_repr repr_count repr_items strip_items strip_item shape_repr shape_item wf_repr wf_item ne_repr ne_item].
+      cbn [tmpl_of_item push] in E. auto.
+    + (* String *)
+      exists (RInline (IStr [])). cbn [tmpl_of_repr repr_count]. repeat split; try reflexivity; try exact I.
+    + (* raw *)
+      exists (RInline (IRaw [])). cbn [tmpl_of_repr repr_count]. repeat split; try reflexivity; try exact I.
+  - (* RArray *)
+    intros l IHl ft Hf Hw Hn Hc. cbn [wf_repr] in Hw. cbn [nz_repr] in Hn. cbn [repr_count] in Hc.
+    destruct ft; try discriminate Hf.
+    all: try (
+      eexists; cbn [tmpl_of_repr repr_count]; rewrite push_n_repr by exact Hc;
+      split; [reflexivity|]; rewrite repr_of_count, rep_items_len, N2Nat.id;
+      split; [reflexivity|]; split; [apply shape_repr_leaf; discriminate|];
+      split; [apply wf_repr_of, wf_rep_items, default_item_wf; [reflexivity|discriminate] | apply ne_repr_of, ne_rep_items; exact I]).
+    + (* Rect *)
+      exists (repr_of (rep_items (N.to_nat (items_len l)) (IFix default_rect))).
+      cbn [tmpl_of_repr repr_count]. rewrite push_n_repr by exact Hc.
+      split; [reflexivity|]. rewrite repr_of_count, rep_items_len, N2Nat.id.
+      split; [reflexivity|]. split; [apply shape_repr_leaf; discriminate|].
+      split; [apply wf_repr_of, wf_rep_items, default_rect_wf | apply ne_repr_of, ne_rep_items; exact I].
+    + (* Message *)
+      destruct (IHl None Hw Hn) as (E & L & S & W & N0).
+      assert (Hne : tmpl_items l <> INil).
+      { intro E0. rewrite E0 in L. cbn [items_len] in L. lia. }
+      exists (repr_of (tmpl_items l)). cbn [tmpl_of_repr repr_items]. rewrite E, push_all_none by exact Hne.
+      split; [reflexivity|]. rewrite repr_of_count, L. split; [reflexivity|].
+      split; [apply shape_repr_of; assumption|]. split; [apply wf_repr_of; exact W|apply ne_repr_of; exact N0].
+    + (* String *)
+      exists (repr_of (rep_items (N.to_nat (items_len l)) (IStr []))).
+      cbn [tmpl_of_repr repr_count]. rewrite push_n_repr by exact Hc.
+      split; [reflexivity|]. rewrite repr_of_count, rep_items_len, N2Nat.id.
+      split; [reflexivity|]. split; [apply shape_repr_leaf; discriminate|].
+      split; [apply wf_repr_of, wf_rep_items; reflexivity | apply ne_repr_of, ne_rep_items; exact I].
+    + (* raw *)
+      exists (RArray (items_map_raw_empty l)). cbn [tmpl_of_repr repr_count].
+      assert (Hm : items_len (items_map_raw_empty l) = items_len l /\ wf_items TRaw (items_map_raw_empty l) /\ ne_items (items_map_raw_empty l)).
+      { clear. induction l as [|x t IH]; cbn [items_map_raw_empty items_len wf_items ne_items wf_item ne_item]; [auto|].
+        destruct IH as (-> & W & N0). auto. }
+      destruct Hm as (L & W & N0). rewrite L. repeat split; try reflexivity; assumption.
+  - (* FNil *) intros _ _. cbn. auto.
+  - (* FCons *)
+    intros n tc r IHr t IHt (Hn & Htc & Hr & Ht) (Hc & Hnr & Hnt).
+    destruct (IHt Ht Hnt) as (S2 & W2 & N2 & I2).
+    cbn [tmpl_of_fields strip_fields]. unfold flattenable.
+    destruct (ft_flattenable (ftype_of_tc tc)) eqn:Fl.
+    + destruct (IHr (ftype_of_tc tc) Fl Hr Hnr Hc) as (r' & E & C & S1 & W1 & N1).
+      rewrite E. cbn [shape_fields wf_fields ne_fields fnames]. unfold flattenable. rewrite Fl.
+      rewrite bytes_eqb_refl, (N.eqb_refl tc), repr_count_strip, repr_items_strip, S1, S2.
+      replace (repr_count r' =? repr_count r) with true by (symmetry; apply N.eqb_eq; exact C). cbn [andb].
+      split; [reflexivity|]. split; [auto|]. split.
+      * split; [|auto]. destruct (ftype_of_tc tc); try exact I. rewrite C. exact Hc.
+      * intros k [Hk|Hk]; [left; exact Hk|right; exact (I2 k Hk)].
+    + split; [exact S2|]. split; [exact W2|]. split; [exact N2|].
+      intros k Hk. right. exact (I2 k Hk).
+  - (* Msg *)
+    intros w fs IH (Hw & Hnd & Hfs) Hn. cbn [nz_msg] in Hn.
+    destruct (IH Hfs Hn) as (S1 & W1 & N1 & I1).
+    cbn [tmpl_of_msg strip_msg shape_msg wf_msg ne_msg]. split; [exact S1|]. split; [|exact N1].
+    split; [exact Hw|]. split; [|exact W1].
+    (* the template's names are a sub-list of the Message's, in the same order *)
+    clear - Hnd. induction fs as [|n tc r t IHf]; cbn [tmpl_of_fields fnames]; [constructor|].
+    cbn [fnames] in Hnd. inversion Hnd as [|? ? Hnin Hnd']; subst.
+    assert (Hsub : forall k, In k (fnames (tmpl_of_fields t)) -> In k (fnames t)).
+    { clear. induction t as [|n tc r t IHt]; cbn [tmpl_of_fields fnames]; [auto|].
+      destruct (flattenable tc); [|intros k Hk; right; exact (IHt k Hk)].
+      destruct (tmpl_of_repr (ftype_of_tc tc) r); cbn [fnames In]; intros k Hk; [destruct Hk; [left; assumption|right; exact (IHt k H)]|right; exact (IHt k Hk)]. }
+    destruct (flattenable tc); [|exact (IHf Hnd')].
+    destruct (tmpl_of_repr (ftype_of_tc tc) r); cbn [fnames]; [|exact (IHf Hnd')].
+    constructor; [intro Hin; apply Hnin; exact (Hsub n Hin)|exact (IHf Hnd')].
+Qed.
+
+(* the template CreateMessageTemplate makes for a Message satisfies the premises of the round trip *)
+Theorem created_template_ok (p : msg) :
+  wf_msg p -> nz_msg p ->
+  same_shape (tmpl_of_msg p) p = true /\ wf_msg (tmpl_of_msg p) /\ ne_msg (tmpl_of_msg p).
+Proof. intros Hw Hn. exact (proj2 (proj2 (proj2 (proj2 created_template_all))) p Hw Hn). Qed.
+
+Corollary tmpl_roundtrip_created (p : msg) :
+  wf_msg p -> nz_msg p -> tmpl_flattened_size (tmpl_of_msg p) p < two32 ->
+  exists b, tmpl_flatten (tmpl_of_msg p) p = Some b /\ len b = tmpl_flattened_size (tmpl_of_msg p) p /\
+            tmpl_unflatten (tmpl_of_msg p) b = Ok (rt p).
+Proof.
+  intros Hw Hn Hs. destruct (created_template_ok p Hw Hn) as (S1 & W1 & N1).
+  apply tmpl_roundtrip; assumption.
+Qed.
+
+(* ------------------------------------------------------------------ the API never leaves an empty field behind *)
+
+Definition op_nz (o : mop) : Prop :=
+  match o with
+  | OAdd _ _ _ v => nz_item v
+  | OReplace _ _ _ _ v => nz_item v
+  | _ => True
+  end.
+
+Lemma nz_flookup n fs tc r : flookup n fs = Some (tc, r) -> nz_fields fs -> 1 <= repr_count r /\ nz_repr r.
+Proof.
+  induction fs as [|k tc' r' t IH]; cbn [flookup nz_fields]; [discriminate|].
+  intros H (Hc & Hr & Ht). destruct (bytes_eqb n k); [injection H as <- <-; auto|exact (IH H Ht)].
+Qed.
+
+Lemma nz_fset n tc r fs : nz_fields fs -> 1 <= repr_count r -> nz_repr r -> nz_fields (fset n tc r fs).
+Proof.
+  intros H Hc Hr. induction fs as [|k tc' r' t IH]; cbn [fset]; [exact I|].
+  destruct H as (Hc' & Hr' & Ht). destruct (bytes_eqb n k); cbn [nz_fields]; auto.
+Qed.
+
+Lemma nz_fapp a b : nz_fields a -> nz_fields b -> nz_fields (fapp a b).
+Proof. intros Ha Hb. induction a as [|k tc r t IH]; cbn [fapp]; [exact Hb|]. destruct Ha as (H1 & H2 & H3). cbn [nz_fields]. auto. Qed.
+
+Lemma nz_fsnoc fs n tc r : nz_fields fs -> 1 <= repr_count r -> nz_repr r -> nz_fields (fsnoc fs n tc r).
+Proof. intros H Hc Hr. unfold fsnoc. apply nz_fapp; [exact H|]. cbn [nz_fields]. auto. Qed.
+
+Lemma nz_fremove n fs : nz_fields fs -> nz_fields (fremove n fs).
+Proof.
+  induction fs as [|k tc r t IH]; cbn [fremove]; intro H; [exact I|].
+  destruct H as (H1 & H2 & H3). destruct (bytes_eqb n k); cbn [nz_fields]; auto.
+Qed.
+
+Lemma nz_fput n tc r fs : nz_fields fs -> 1 <= repr_count r -> nz_repr r -> nz_fields (fput n tc r fs).
+Proof. intros. unfold fput. destruct (flookup n fs); [apply nz_fset|apply nz_fsnoc]; assumption. Qed.
+
+Lemma nz_items_snoc l v : nz_items l -> nz_item v -> nz_items (items_snoc l v).
+Proof. intros Hl Hv. unfold items_snoc. induction l as [|i t IH]; cbn [items_app nz_items]; [auto|]. destruct Hl. auto. Qed.
+
+Lemma nz_items_remove k l : nz_items l -> nz_items (items_remove k l).
+Proof.
+  revert k; induction l as [|i t IH]; intros k Hl; cbn [items_remove]; [exact I|].
+  destruct Hl as [Hi Ht]. destruct (k =? 0); [exact Ht|]. cbn [nz_items]. auto.
+Qed.
+
+Lemma nz_items_replace k v l : nz_items l -> nz_item v -> nz_items (items_replace k v l) /\ items_len (items_replace k v l) = items_len l.
+Proof.
+  revert k; induction l as [|i t IH]; intros k Hl Hv; cbn [items_replace]; [split; [exact I|reflexivity]|].
+  destruct Hl as [Hi Ht]. destruct (k =? 0); cbn [nz_items items_len]; [auto|].
+  destruct (IH (N.pred k) Ht Hv) as [H1 H2]. rewrite H2. auto.
+Qed.
+
+Lemma nz_push p r v :
+  match r with Some r0 => nz_repr r0 | None => True end -> nz_item v ->
+  nz_repr (push p r v) /\ 1 <= repr_count (push p r v).
+Proof.
+  intros Hr Hv. destruct r as [[a|l]|]; cbn [push nz_repr repr_count] in *.
+  - destruct p; cbn [nz_items items_len]; split; auto; lia.
+  - destruct p.
+    + cbn [nz_items items_len]. split; [auto|lia].
+    + split; [apply nz_items_snoc; assumption|].
+      unfold items_snoc. clear. induction l as [|i t IH]; cbn [items_app items_len]; lia.
+  - split; [exact Hv|lia].
+Qed.
+
+Lemma api_add_nz p n tc v m : nz_msg m -> nz_item v -> nz_msg (fst (api_add p n tc v m)).
+Proof.
+  intros Hm Hv. destruct m as [w fs]. unfold api_add. cbn [nz_msg] in Hm.
+  destruct (tc =? c_B_ANY_TYPE); [exact Hm|].
+  destruct (flookup n fs) as [[tc' r]|] eqn:El.
+  - destruct (tc' =? tc); [|exact Hm]. cbn [fst nz_msg].
+    destruct (nz_flookup _ _ _ _ El Hm) as [_ Hr].
+    destruct (nz_push p (Some r) v Hr Hv). apply nz_fset; assumption.
+  - cbn [fst nz_msg]. destruct (nz_push p None v I Hv). apply nz_fsnoc; assumption.
+Qed.
+
+Lemma step_nz (m : msg) (o : mop) : nz_msg m -> op_nz o -> nz_msg (fst (step m o)).
+Proof.
+  intros Hm Ho. destruct o as [p n tc v|a n tc idx v|n idx|n|old new|w| |n|n|old new]; cbn [step op_nz] in *.
+  - apply api_add_nz; assumption.
+  - destruct m as [w fs]. unfold api_replace. pose proof Hm as Hfs. cbn [nz_msg] in Hfs.
+    destruct (tc =? c_B_ANY_TYPE); [exact Hm|].
+    destruct (flookup n fs) as [[tc' r]|] eqn:El.
+    + destruct (tc' =? tc).
+      * destruct (a && (repr_count r <=? idx)); [apply api_add_nz; assumption|].
+        destruct (nz_flookup _ _ _ _ El Hfs) as [Hc Hr].
+        destruct r as [i|l].
+        -- destruct (idx =? 0); [|exact Hm]. cbn [fst nz_msg]. apply nz_fset; [exact Hfs|cbn; lia|exact Ho].
+        -- destruct (idx <? items_len l); [|exact Hm]. cbn [fst nz_msg].
+           cbn [nz_repr repr_count] in *. destruct (nz_items_replace idx v l Hr Ho) as [H1 H2].
+           apply nz_fset; [exact Hfs|cbn [repr_count]; rewrite H2; exact Hc|exact H1].
+      * destruct (a && true); [apply api_add_nz; assumption|exact Hm].
+    + destruct (a && true); [apply api_add_nz; assumption|exact Hm].
+  - destruct m as [w fs]. unfold api_remove_data. pose proof Hm as Hfs. cbn [nz_msg] in Hfs.
+    destruct (flookup n fs) as [[tc r]|] eqn:El; [|exact Hm].
+    destruct (nz_flookup _ _ _ _ El Hfs) as [Hc Hr].
+    destruct r as [i|l].
+    + destruct (idx =? 0); [|exact Hm]. cbn [fst nz_msg]. apply nz_fremove. exact Hfs.
+    + destruct (idx <? items_len l).
+      * destruct (items_len (items_remove idx l) =? 0) eqn:E0; cbn [fst nz_msg]; [apply nz_fremove; exact Hfs|].
+        apply N.eqb_neq in E0. apply nz_fset; [exact Hfs|cbn [repr_count]; lia|apply nz_items_remove; exact Hr].
+      * destruct (items_len l =? 0); [|exact Hm]. cbn [fst nz_msg]. apply nz_fremove. exact Hfs.
+  - destruct m as [w fs]. unfold api_remove_name. destruct (flookup n fs); [|exact Hm].
+    cbn [fst nz_msg]. apply nz_fremove. exact Hm.
+  - destruct m as [w fs]. unfold api_rename. pose proof Hm as Hfs. cbn [nz_msg] in Hfs.
+    destruct (bytes_eqb old new); [exact Hm|].
+    destruct (flookup old fs) as [[tc r]|] eqn:El; [|exact Hm]. cbn [fst nz_msg].
+    destruct (nz_flookup _ _ _ _ El Hfs) as [Hc Hr]. apply nz_fput; auto using nz_fremove.
+  - destruct m as [w0 fs]. exact Hm.
+  - destruct m as [w0 fs]. exact I.
+  - destruct m as [w fs]. unfold api_move. pose proof Hm as Hfs. cbn [nz_msg] in Hfs.
+    destruct (flookup n fs) as [[tc r]|] eqn:El; [|exact Hm]. cbn [fst nz_msg].
+    destruct (nz_flookup _ _ _ _ El Hfs) as [Hc Hr]. cbn [nz_fields]. auto using nz_fremove.
+  - destruct m as [w fs]. unfold api_move. pose proof Hm as Hfs. cbn [nz_msg] in Hfs.
+    destruct (flookup n fs) as [[tc r]|] eqn:El; [|exact Hm]. cbn [fst nz_msg].
+    destruct (nz_flookup _ _ _ _ El Hfs) as [Hc Hr]. apply nz_fsnoc; auto using nz_fremove.
+  - destruct m as [w fs]. unfold api_copy_name. pose proof Hm as Hfs. cbn [nz_msg] in Hfs.
+    destruct (bytes_eqb old new); [exact Hm|].
+    destruct (flookup old fs) as [[tc r]|] eqn:El; [|exact Hm]. cbn [fst nz_msg].
+    destruct (nz_flookup _ _ _ _ El Hfs) as [Hc Hr]. apply nz_fput; assumption.
+Qed.
+
+Theorem api_reachable_nz (ops : list mop) : Forall op_nz ops -> nz_msg (run ops empty_msg).
+Proof.
+  unfold run. assert (H0 : nz_msg empty_msg) by exact I.
+  revert H0. generalize empty_msg as m.
+  induction ops as [|o ops IH]; intros m Hm Hok; cbn [fold_left]; [exact Hm|].
+  inversion Hok as [|? ? Ho Hops]; subst. apply IH; [|exact Hops]. apply step_nz; assumption.
+Qed.
